@@ -13,7 +13,7 @@ func init() {
 		Decided: "every navigation site of the VM records a path only under the path-tracking guard and, when it starts from a user value, only after pathIntact() of the value navigated from, failing with an invalid-path error (R-C02-nav); the VM's set of path-tracked native names equals the compiler's indexing set (R-C01-calltriple); " +
 			"opexpbegin/opexpend emissions are balanced per compiler function, with a removal idiom where the end is conditional (R-C02-expbalance); the hand-assembled bytecode of _assign and _modify verifies: jump/fork targets, stack depth on all paths, variable indices, path/exp balance, operand types (R-C02-bc); " +
 			"every in-place write of update/updateObject/updateArrayIndex/updateArraySlice/deleteEmpty/delpaths/setpath goes to a container made by the allocator or dominated by allocated(v) (R-C05-own); no 2-index slice of a possibly allocator-owned array is handed to a parameter through which the callee may write or extend in place (R-C02-capleak); builtin.go equals the parse of builtin.jq for del/paths/pick/to_entries/with_entries/map_values/tostream (R-C03-sync).",
-		NotCovered: "equality with the defining reduction for overlapping paths; mark-then-sweep index stability; aliasing of slice views handed to f under |= (flows through bytecode, D7); which path expressions are path-safe.",
+		NotCovered: "equality with the defining reduction for overlapping paths; mark-then-sweep index stability; the flow of slice views and duplicated containers through f under |= (through bytecode; the two places where the allocator trusts what comes back are checked: R-C02-release, R-C02-inplaceslice); which path expressions are path-safe.",
 	})
 	reg(&Rule{ID: "R-C02-capleak", Props: []string{"C02", "C05"}, Floor: 1,
 		Doc: "a 2-index slice x[i:j] of a JSON array is not passed to a parameter through which the callee may write or extend in place (accepted: x[i:j:j] or a fresh copy)",
